@@ -27,6 +27,9 @@ func decodeHuffman(state *inflate, output []byte, written int) (w int, err error
 				err = errInvalidLookBack
 			case errorNoOutOverflow:
 				err = errOutputOverflow
+			default:
+				// never report success for an error code this switch does not know
+				err = errInvalidBlock
 			}
 			return written, err
 		}
